@@ -142,6 +142,7 @@ func (g *gen) execReal(c *Case) (vs []viol, outcome string) {
 	id, rc := e.open(c.script())
 	defer e.drop(id)
 	cl := clientsFor(srv)
+	logStart := len(srv.ErrLog())
 
 	var res realResult
 	switch c.Lane {
@@ -189,7 +190,8 @@ func (g *gen) execReal(c *Case) (vs []viol, outcome string) {
 			// the response is complete and the handler never ran
 		}
 	}
-	if log := srv.ErrLog(); strings.Contains(log, "panic serving") {
+	// only what the server logged while this stream was running
+	if log := srv.ErrLog()[logStart:]; strings.Contains(log, "panic serving") {
 		i := strings.Index(log, "panic serving")
 		msg := log[i:]
 		if len(msg) > 300 {
@@ -525,7 +527,9 @@ func (g *gen) withheld(c *Case, rc *rec, i int, what string) realResult {
 	dump, inRecv := larkingRecvInDump()
 	if rc.sentN() > i && inRecv {
 		_ = dump
+		groupMu.Lock()
 		g.withheldSeen[c.Lane+" "+c.prefix()] = true
+		groupMu.Unlock()
 		return realResult{final: true, vs: []viol{{c.prefix() + ":withheld:lockstep", fmt.Sprintf("%s %d was sent by the handler (SendMsg returned) but did not reach the client within %v while the handler waits in RecvMsg for the next request message", what, i, stepTimeout)}}, clientSaw: false}
 	}
 	return realResult{incon: fmt.Sprintf("lock-step %s %d timed out (handler had sent %d)", what, i, rc.sentN())}
